@@ -133,22 +133,31 @@ def execute_run(run, scdir, idx, note_fd, out_name="out.pqr", outdir=None, use_m
     else:
         mon = _NoMonitor()
     seam.seq_source = mon.step
-    if entry == "cli":
+    if entry in ("cli", "cli_module"):
         logging.disable(logging.NOTSET)
     old_argv = sys.argv
     seam.install()
     net.install()
     mon.start()
     try:
-        if entry == "cli":
+        if entry in ("cli", "cli_module"):
             from pdb2pqr import main as main_mod
             sys.argv = ["pdb2pqr"] + [str(a) for a in argv]
             exc = None
+            ret = None
             try:
-                main_mod.main()
+                if entry == "cli":
+                    # console script generated from [project.scripts]: sys.exit(main())
+                    ret = main_mod.main()
+                else:
+                    # python -m pdb2pqr
+                    import runpy
+                    runpy.run_module("pdb2pqr", run_name="__main__", alter_sys=True)
             except BaseException as e:  # noqa: BLE001
                 exc = e
             outcome = runner.outcome_of_exception(exc)
+            if exc is None and ret not in (None, 0):
+                outcome = "fail"  # sys.exit(<non-zero / message>)
             etype = type(exc).__name__ if exc is not None else None
             etext = str(exc)[:300] if exc is not None else None
         else:
@@ -167,7 +176,7 @@ def execute_run(run, scdir, idx, note_fd, out_name="out.pqr", outdir=None, use_m
         if amb.get("tz"):
             import time as _t
             _t.tzset()
-        if entry == "cli":
+        if entry in ("cli", "cli_module"):
             logging.shutdown()
             logging.disable(logging.CRITICAL)
     fired = list(mon.fired)
@@ -292,6 +301,14 @@ def judge(run, outcome, fired, before, after, ref):
             return v("trigger-not-loud", detail="a cfg the property names as a failure cause "
                      "returned normally", wrote_output=a_bytes is not None and not untouched), notes
         soft = [f for f in fired if not is_fatal(f)]
+        if ref is not None and soft and all(f.get("kind") == "io:open-fail" for f in soft):
+            # an open() that failed with ENOENT/EACCES/... may be survived by a genuine
+            # fallback, but then the result must be the valid one, not a silently different one
+            if ref["outcome"] == "ok" and a_bytes != ref["pqr"]:
+                return v("io-error-silently-changed-output",
+                         got_len=len(a_bytes) if a_bytes is not None else None,
+                         want_len=len(ref["pqr"]) if ref["pqr"] is not None else None), notes
+            return None, notes
         if ref is not None and not soft:
             if ref["outcome"] != "ok":
                 return v("succeeded-where-reference-fails"), notes
@@ -526,7 +543,7 @@ def build_scenarios(cfg, prof, seed, tier, prev_cfg):
                       for _ in range(6)]
         for s in specs:
             c2 = dict(cfg, content=s)
-            add("content", [{"cfg": c2, "entry": rng.choice(["run_pdb2pqr", "cli"])}])
+            add("content", [{"cfg": c2, "entry": rng.choice(["run_pdb2pqr", "cli", "cli_module"])}])
     for key in sorted((cfg.get("files") or {})):
         if cfg["files"][key] is None:
             continue
@@ -620,7 +637,7 @@ def build_scenarios(cfg, prof, seed, tier, prev_cfg):
                     faults.append({"k": "io", "op": "read", "path_label": label,
                                    "n": rng.randint(1, nread), "errno": errno.EIO})
             # else: a fault-free run inside the history
-            entry = rng.choice(["run_pdb2pqr", "run_pdb2pqr", "main_driver", "cli"])
+            entry = rng.choice(["run_pdb2pqr", "run_pdb2pqr", "main_driver", "cli", "cli_module"])
             runs.append({"cfg": cfg, "entry": entry, "faults": faults})
         add("random", runs)
     return sc
@@ -872,12 +889,12 @@ def trigger_scenarios(quick=False):
 
     def t(name, cfg, note=""):
         pres = ("absent", "sentinel", {"run": CFGS["hid-amber"]})
-        entries = ("run_pdb2pqr", "cli")
+        entries = ("run_pdb2pqr", "cli", "cli_module")
         k = count[0]
         count[0] += 1
-        combos = [(p, e) for p in range(3) for e in range(2)]
+        combos = [(p, e) for p in range(3) for e in range(3)]
         if quick:
-            combos = [(k % 3, k % 2), ((k + 1) % 3, (k + 1) % 2)]
+            combos = [(k % 3, k % 3), ((k + 1) % 3, (k + 2) % 3)]
         for pi, ei in combos:
             T.append({"tag": "trigger", "name": name, "pre": pres[pi],
                       "runs": [{"cfg": cfg, "entry": entries[ei], "expect": "fail",
